@@ -1,7 +1,7 @@
 use std::cmp::Ordering;
 use std::fmt::Display;
 
-use rusty_bit_vec::{MIN_INTEGER, MIN_LONG};
+use rusty_bit_vec::{MAX_INTEGER, MAX_LONG, MIN_INTEGER, MIN_LONG};
 
 use crate::fit::FitToType;
 use crate::{UserDefinedTypeValue, VArray, qb_and, qb_or};
@@ -101,6 +101,24 @@ macro_rules! div {
             Ok(($nom as $cast / $div as $cast).fit_to_type())
         }
     };
+}
+
+/// The result of `+`, `-` or `*` on two INTEGER operands:
+/// `Overflow` unless it is within the INTEGER range.
+fn integer_result(n: Option<i32>) -> Result<Variant, VariantError> {
+    match n {
+        Some(n) if (MIN_INTEGER..=MAX_INTEGER).contains(&n) => Ok(Variant::VInteger(n)),
+        _ => Err(VariantError::Overflow),
+    }
+}
+
+/// The result of `+`, `-` or `*` on LONG (or mixed INTEGER and LONG) operands:
+/// `Overflow` unless it is within the LONG range.
+fn long_result(n: Option<i64>) -> Result<Variant, VariantError> {
+    match n {
+        Some(n) if (MIN_LONG..=MAX_LONG).contains(&n) => Ok(Variant::VLong(n)),
+        _ => Err(VariantError::Overflow),
+    }
 }
 
 // TODO implement standard operators with panics, let the linter guarantee the type compatibility
@@ -217,12 +235,12 @@ impl Variant {
                 _ => Err(VariantError::TypeMismatch),
             },
             Self::VInteger(i_left) => match other {
-                Self::VInteger(i_right) => Ok(Self::VInteger(i_left + i_right)),
-                Self::VLong(l_right) => Ok(Self::VLong(i_left as i64 + l_right)),
+                Self::VInteger(i_right) => integer_result(i_left.checked_add(i_right)),
+                Self::VLong(l_right) => long_result((i_left as i64).checked_add(l_right)),
                 _ => other.plus(self),
             },
             Self::VLong(l_left) => match other {
-                Self::VLong(l_right) => Ok(Self::VLong(l_left + l_right)),
+                Self::VLong(l_right) => long_result(l_left.checked_add(l_right)),
                 _ => other.plus(self),
             },
             _ => Err(VariantError::TypeMismatch),
@@ -245,12 +263,13 @@ impl Variant {
                 _ => other.minus(self).and_then(|x| x.negate()),
             },
             Self::VInteger(i_left) => match other {
-                Self::VInteger(i_right) => Ok(Self::VInteger(i_left - i_right)),
-                Self::VLong(l_right) => Ok(Self::VLong(i_left as i64 - l_right)),
+                Self::VInteger(i_right) => integer_result(i_left.checked_sub(i_right)),
+                Self::VLong(l_right) => long_result((i_left as i64).checked_sub(l_right)),
                 _ => other.minus(self).and_then(|x| x.negate()),
             },
             Self::VLong(l_left) => match other {
-                Self::VLong(l_right) => Ok(Self::VLong(l_left - l_right)),
+                Self::VLong(l_right) => long_result(l_left.checked_sub(l_right)),
+                Self::VInteger(i_right) => long_result(l_left.checked_sub(i_right as i64)),
                 _ => other.minus(self).and_then(|x| x.negate()),
             },
             _ => Err(VariantError::TypeMismatch),
@@ -273,12 +292,12 @@ impl Variant {
                 _ => other.multiply(self),
             },
             Self::VInteger(i_left) => match other {
-                Self::VInteger(i_right) => Ok(Self::VInteger(i_left * i_right)),
-                Self::VLong(l_right) => Ok(Self::VLong(i_left as i64 * l_right)),
+                Self::VInteger(i_right) => integer_result(i_left.checked_mul(i_right)),
+                Self::VLong(l_right) => long_result((i_left as i64).checked_mul(l_right)),
                 _ => other.multiply(self),
             },
             Self::VLong(l_left) => match other {
-                Self::VLong(l_right) => Ok(Self::VLong(l_left * l_right)),
+                Self::VLong(l_right) => long_result(l_left.checked_mul(l_right)),
                 _ => other.multiply(self),
             },
             _ => Err(VariantError::TypeMismatch),
